@@ -61,6 +61,17 @@ def check(case):
                 if st_name == "failed" or st_name in ERROR_CLASS:
                     expected.append((str(s.location), s.name))
                     failed_kind.add("failed" if st_name == "failed" else "error")
+        # -- what the RUN demands (reference model): every scenario that failed / errored is expected
+        from .. import refmodel
+        order = [int(os.path.basename(f.filename)[1:].split(".")[0]) for f in run1.features]
+        prog_run_order = dict(prog, features=[prog["features"][i] for i in order])     # sub-directories come last
+        ref = refmodel.simulate(prog_run_order)
+        all_names = [s.name for f in run1.features for s in f.walk_scenarios()]
+        listed = set(n for _l, n in expected)
+        for name, klass in sorted(runcheck.status_floor(ref, prog).items()):
+            if all_names.count(name) == 1 and name not in listed:
+                res.fail("C17.status-vs-run", "scenario %r ended in the %s class in run 1 (reference model) but its "
+                         "final status does not say so" % (name, klass))
         lines = None
         if os.path.exists(rerun_path):
             with open(rerun_path, encoding="utf-8") as f:
